@@ -5,7 +5,7 @@ import random
 import re
 
 from vlib import tlc
-from engines import layout
+from engines import layout, blind
 
 G_NEAR = [2]
 G_CB = [250, 252, 254, 256]
@@ -99,6 +99,29 @@ def run_plan(run, scratch, prop):
         run.add_tlc('LitSpace', r)
         stats.append({'class': 'litspace', 'max_len': 1, 'gaps': [], 'alphabet': 0, 'sequences': r.distinct, 'well_formed_programs': len(progs)})
         total += judge(run, scratch, prop, want, progs, 'tlc:litspace', nontrivial)
+    # (B) programs nobody here wrote: the repository's examples and the sources quoted in its test-suite (BlindTrace)
+    BLIND = {'C03': {'LabelsExact'}, 'C04': {'MeaningPreserved', 'EveryInstructionLegal', 'DataUnchanged'}, 'C09': {'AlignZeros', 'DataUnchanged'},
+             'C12': {'CompressKeepsSuccess'}, 'C20': {'NotLonger', 'LabelsNotLater', 'NeverLongerPerItem'}, 'C08': set()}
+    if BLIND.get(prop):
+        brecs = []
+        for name, src, inc, cwd in blind.corpus(scratch):
+            r = blind.record(src, inc, cwd)
+            r['name'] = name
+            brecs.append(r)
+        os.chdir(scratch)
+        bbad = blind.validate(brecs, scratch, run)
+        for i, fails in bbad.items():
+            for clause, idx in fails:
+                if clause in BLIND[prop]:
+                    run.violation(clause, {'origin': 'repository-program', 'program': brecs[i]['name']},
+                                  {'program': brecs[i]['name'], 'line': brecs[i]['lines'][idx - 1] if idx else None,
+                                   'nc': {'size': brecs[i]['nc']['sizes'][idx - 1] if idx else None, 'halfwords': brecs[i]['nc']['hw'][idx - 1] if idx else None},
+                                   'c': {'size': brecs[i]['c']['sizes'][idx - 1] if idx else None, 'halfwords': brecs[i]['c']['hw'][idx - 1] if idx else None,
+                                         'status': brecs[i]['c']['status'], 'msg': brecs[i]['c'].get('msg')}})
+        total += len(brecs)
+        run.coverage['repository_programs_validated'] = [r['name'] for r in brecs]
+        if len(brecs) < 7 or not all(r['nc']['status'] == 'ok' for r in brecs[:7]):
+            raise tlc.TlcFailure('non-vacuity: the repository examples did not assemble: %s' % [(r['name'], r['nc']['status']) for r in brecs[:7]])
     # (B) larger programs TLC did not choose, over the same alphabets
     count, lo, hi = RANDOM[run.tier]
     for (cls, gaps), alpha in alphas.items():
